@@ -4,7 +4,7 @@
    skipper lands exactly after the matching close. *)
 From JV Require Import Bytes Tables U64Swar BufWin TextTok TextReader TextRef TextSkipRef TextTape TextDoc.
 From JV.proofs Require Import TextReaderProofs TextRefProofs TextFbProofs TextReaderMainProofs
-  TextSkipProofs TextSkipStreamProofs TextSkipTokProofs TextParseProofs.
+  TextSkipProofs TextSkipStreamProofs TextSkipTokProofs TextSkipEndProofs TextParseProofs.
 From Coq Require Import Lia List Arith ZArith.
 Import ListNotations.
 Open Scope nat_scope.
@@ -512,4 +512,24 @@ Proof.
   intros d l pre post Hd (Hg & Hsep & _) E.
   destruct (doc_open_has_close d pre post Hd E) as [post' Hm]. exists post'. split; [exact Hm|].
   apply doc_skip_is_token_counting; assumption.
+Qed.
+
+(* streaming form: a reader that stands just after an Open of the rendering *)
+Theorem doc_stream_skip : forall d l pre post input fuel r,
+  simple_fields d = true -> wf_layout d l ->
+  toks_fields d = pre ++ lbrace :: post ->
+  wf_bytes input -> rok input r ->
+  stream_of r = render_toks (gap l) post (S (length pre)) ->
+  skip_cap_ok r -> length (rest (rrd r)) < fuel ->
+  exists post' r',
+    match_close 1 post = Some post' /\
+    skip_container fuel r = Ok r' /\ rok input r' /\
+    stream_of r' = render_toks (gap l) post' (length (toks_fields d) - length post') /\
+    cap (rbw r') = cap (rbw r).
+Proof.
+  intros d l pre post input fuel r Hd Hl E Hwf Hrok Hs Hcap Hf.
+  destruct (doc_skip_every_open d l pre post Hd Hl E) as (post' & Hm & H). cbv zeta in H.
+  destruct H as (_ & (toks & Ht & Hp) & _). rewrite <- Hs in Ht.
+  destruct (skip_container_lands_on_token input fuel r toks _ Hwf Hrok Hcap Hf Ht Hp) as (r' & H1 & H2 & H3 & _ & H5).
+  exists post', r'. auto.
 Qed.
